@@ -937,8 +937,12 @@ impl<'a> ParseState<'a, &'a str> {
             // 三⇒三预算
             _ => Budget::new_triple(p, d, q),
         };
-        // 跳过右括弧
-        self.head_skip_after_spaces(self.format.task.budget_brackets.1);
+        // 跳过右括弧 | 缺少右括弧⇒并非预算值（如顶层的独立变量`$0`），交由后续分支解析
+        self.head_skip_spaces();
+        if !self.starts_with(self.format.task.budget_brackets.1) {
+            return self.err("预算值缺少右括弧");
+        }
+        self.head_skip(self.format.task.budget_brackets.1);
         // 直接置入预算值 | 因为先前`consume_one`已经假定「未曾置入预算值」
         let _ = self.mid_result.budget.insert(budget);
         Self::ok_consume()
